@@ -208,7 +208,8 @@ Proof.
 Qed.
 
 Lemma pre_state_sbf st : same_but_flags st (pre_state st).
-Proof. unfold pre_state. destruct (getf (resetf st FLAG_LANG) FLAG_WAIT); unfold same_but_flags; cbn; intuition. Qed.
+Proof. unfold pre_state. destruct (getf (resetf st FLAG_LANG) FLAG_WAIT); unfold same_but_flags;
+    cbn [s_code s_path s_bitsize s_idx s_lang s_input setf resetf set_flags]; intuition. Qed.
 Lemma pre_state_pos st : pos_of (pre_state st) = pos_of st.
 Proof. unfold pre_state. destruct (getf (resetf st FLAG_LANG) FLAG_WAIT); reflexivity. Qed.
 Lemma pre_state_where st : where_sym (pre_state st) = where_sym st.
@@ -2022,7 +2023,8 @@ Lemma new_engine_facts c p :
   v_st (e_v e) = fst (start_snap c p) /\ v_ca (e_v e) = snd (start_snap c p) /\ v_log (e_v e) = pw_log p
   /\ e_initd e = false /\ e_execd e = false /\ e_exiting e = false.
 Proof.
-  unfold new_engine, start_snap. destruct (pw_store p) as [[s ca]|]; cbn; auto 10.
+  unfold new_engine, start_snap. destruct (pw_store p) as [[s ca]|];
+    cbn [v_st v_ca v_log e_v e_initd e_execd e_exiting fst snd]; auto 10.
 Qed.
 
 Lemma fresh_state_pos c : pos_of (fresh_state c) = ([], 0).
@@ -2221,4 +2223,32 @@ Proof.
   eexists. eexists. eexists. exists [EvCode []; EvMove 1 t_up []; EvInCmp t_up (s2b "0") true; EvInstr op_INCMP].
   split; [vm_compute; discriminate|]. split; [vm_compute; reflexivity|].
   split; [vm_compute; reflexivity|]. vm_compute. repeat split.
+Qed.
+
+(* ---- whole histories on a long-lived engine ------------------------------------------------------ *)
+Fixpoint long_history (fuel : nat) (rs : rsrc) (c : config) (e : engine) (inputs : list bytes) : engine :=
+  match inputs with
+  | [] => e
+  | i :: r => long_history fuel rs c (fst (request_long fuel rs c e i)) r
+  end.
+Lemma long_history_reach : forall inputs fuel rs c e,
+  c_first c = None -> cache_ok (v_ca (e_v e)) ->
+  pos_reach (e_v e) (e_v (long_history fuel rs c e inputs)).
+Proof.
+  induction inputs as [|i r IH]; intros fuel rs c e Hf Hc; [apply pr_refl; exact Hc|].
+  cbn [long_history]. destruct (request_long fuel rs c e i) as [e1 resp] eqn:Hr. cbn [fst].
+  destruct (request_long_reach _ _ _ _ _ _ _ (or_intror Hf) Hc Hr) as [R1 _].
+  eapply pr_trans; [exact R1|]. apply IH; [exact Hf|apply (pr_cache_ok _ _ R1)].
+Qed.
+(* from a new engine without a stored session: the trace starts at the empty position *)
+Lemma long_history_fresh : forall inputs fuel rs c w lg,
+  c_first c = None ->
+  let e := long_history fuel rs c (new_engine c None w lg) inputs in
+  exists new tr, v_log (e_v e) = new ++ lg /\ trace_moves tr = log_moves new
+    /\ pos_trace ([], 0) tr = Some (pos_of (v_st (e_v e))).
+Proof.
+  intros inputs fuel rs c w lg Hf. cbv zeta.
+  destruct (long_history_reach inputs fuel rs c (new_engine c None w lg) Hf) as (_ & new & tr & L & M & T).
+  - unfold new_engine. cbn [e_v v_ca]. apply fresh_cache_ok.
+  - exists new, tr. unfold new_engine in L, T. cbn [e_v v_log v_st] in L, T. rewrite fresh_state_pos in T. auto.
 Qed.
